@@ -89,6 +89,9 @@ class BaseInstance:
     def const(s, eng, st, fr, c):
         raise Unsupported('const ' + c)
 
+    def pure_call(s, callee, args):
+        return NotImplemented
+
     def drop(s, eng, st, fr, place):
         return None
 
@@ -116,11 +119,11 @@ class BaseInstance:
             vec = eng.read(st, r)
             eng.oblige(st, b_ult(idx, vec.len), 'panic', f'{fr.fn.name.split("::")[-1]}: Vec index out of bounds')
             return R(Ref(r.root, r.path + (('i', idx),)))
-        if re.match(r'^<std::ops::Range<(u32|usize)> as IntoIterator>::into_iter$', c):
+        if re.match(r'^<std::ops::Range<(u32|usize|i32)> as IntoIterator>::into_iter$', c):
             return R(args[0])
-        if re.match(r'^<std::ops::Range<(u32|usize)> as Iterator>::rev$', c):
+        if re.match(r'^<std::ops::Range<(u32|usize|i32)> as Iterator>::rev$', c):
             return R(['rev', args[0]])
-        if re.match(r'^<std::ops::Range<(u32|usize)> as Iterator>::next$', c):
+        if re.match(r'^<std::ops::Range<(u32|usize|i32)> as Iterator>::next$', c):
             rng = eng.read(st, args[0])
             start, end = rng
             w = start.size()
@@ -137,11 +140,10 @@ class BaseInstance:
             vec = eng.read(st, args[0])
             it = args[1]
             start, end = it[1]
-            if not (z3.is_bv_value(start) and z3.is_bv_value(end) and z3.is_bv_value(vec.len)):
+            a, b, n = eng.concretize(start), eng.concretize(end), eng.concretize(vec.len)
+            if a is None or b is None or n is None:
                 raise Unsupported('extend with symbolic range')
-            a, b = start.as_long(), end.as_long()
             cells = list(vec.cells)
-            n = vec.len.as_long()
             vals = [bv(x, 32) for x in range(b - 1, a - 1, -1)]
             for i, x in enumerate(vals):
                 if n + i < len(cells):
